@@ -76,8 +76,9 @@ func handleALIGNB(params x86genParams, ctx *CodeGenContext) ([]byte, error) {
 		return nil, fmt.Errorf("handleALIGNB: invalid alignment boundary %d, must be a positive power of 2", alignBoundary)
 	}
 
-	// x86genParams から現在のバイトコード長を取得
-	currentLength := params.MachineCodeLen
+	// ALIGNB aligns the current ADDRESS (origin + bytes emitted so far), as pass 1
+	// does with its location counter, not the offset within the output.
+	currentLength := int(ctx.DollarPosition) + params.MachineCodeLen
 	paddingSize := (alignBoundary - (currentLength % alignBoundary)) % alignBoundary
 
 	if paddingSize > 0 {
